@@ -196,7 +196,9 @@ pub fn conclude(
         }
         unlisted += 1;
         if unlisted > 5 {
-            continue; // report at most five distinct violations per run
+            // report at most five distinct violations per run in full
+            println!("(further violation, not minimised/replayed: class={} {})", v.class, v.what.chars().take(200).collect::<String>());
+            continue;
         }
         if opts.dry {
             println!("VIOLATION(dry) property={} class={} {}", property, v.class, v.what);
